@@ -108,6 +108,7 @@ func equalityOnly(fns []*ssa.Function) (bool, string) {
 }
 
 func checkC06(p *Prog, rp *Report) {
+	defer stateRule(p, rp, "C06-STATE", p.Method("dependency", "Arch", "Is"), p.Method("dependency", "ArchSet", "Matches"), p.Method("dependency", "Dependency", "GetPossibilities"), p.Method("dependency", "Dependency", "GetAllPossibilities"), p.Method("dependency", "Dependency", "GetSubstvars"), p.Method("dependency", "VersionRelation", "SatisfiedBy"))
 	rp.Level = "proof"
 	rp.Explanation = "Complete decision tables of Arch.Is / IsWildcard (C06-IS, both operand orders), ArchSet.Matches (C06-SET), Dependency.GetPossibilities / GetAllPossibilities / GetSubstvars (C06-SELECT) and VersionRelation.SatisfiedBy (C06-SAT) obtained by abstract interpretation of their SSA on a universe that is exhaustive by data independence (strings only compared for equality: universe = literals in the code + generic names), with callees replaced by oracles (el.Is, Architectures.Matches, version.Parse, version.Compare) whose every outcome is enumerated; loops are range loops whose only loop-carried state is the index and an append-only accumulator (checked), so the tables for lists of length 0..3 determine all lengths."
 	rp.NotDecided = "nothing beyond the trusted base (data-independence argument; induction over list length from the loop-shape check)."
